@@ -13,6 +13,7 @@
 From Coq Require Import List ZArith String Permutation.
 From C08 Require Import Model Spec Proofs ProofsLate ProofsProgram.
 Import ListNotations.
+Open Scope list_scope.
 
 (* (1) Cache transparency, and compiled = list form, at the level of one evaluation: in EVERY state
    satisfying the invariant - whatever subset of the slots has been compiled, by evaluation or by
@@ -52,20 +53,22 @@ Print Assumptions C08_compile_then_evaluate.
 
 (* (5) EVERY definition - of a new name, of a name called before (placeholder), a second or third definition -
    keeps the invariant and gives the name exactly that definition: the Lambda registered for the name takes
-   the definition over and is the one all compiled calls hold (no guard since repo_fixes/C08-3). *)
-Theorem C08_defun_step : forall st ft name ps body,
+   the definition over - lambda list, forms and closure (`clos`: the variables of a `let` around the defun; none
+   for a top-level defun, so a top-level redefinition of a function first defined inside a let drops the let's
+   variables) - and is the one all compiled calls hold (no guard since repo_fixes/C08-3). *)
+Theorem C08_defun_step : forall st ft name ps body clos,
   Inv st -> Rel st ft ->
-  Inv (defunM st name ps body) /\ Rel (defunM st name ps body) ((name, (ps, body)) :: ft) /\
-  out (defunM st name ps body) = out st.
+  Inv (defunM st name ps body clos) /\ Rel (defunM st name ps body clos) ((name, (ps, body, clos)) :: ft) /\
+  out (defunM st name ps body clos) = out st.
 Proof. exact defunM_step. Qed.
 Print Assumptions C08_defun_step.
 
 (* (6) Late binding: code that has been evaluated (so its slots are compiled and hold Lambda pointers)
    sees ANY redefinition made afterwards: its next evaluation is S's with the new definition. *)
-Theorem C08_redefinition_seen_by_cached_code : forall n st ft en e g ps body r0 st0 rS oS,
+Theorem C08_redefinition_seen_by_cached_code : forall n st ft en e g ps body clos r0 st0 rS oS,
   Inv st -> Rel st ft -> evalM n st en e = (r0, st0) ->
-  evalS n ((g, (ps, body)) :: ft) en (out st0) e = (rS, oS) -> comparable rS = true ->
-  exists st1, evalM n (defunM st0 g ps body) en e = (rS, st1) /\ out st1 = oS.
+  evalS n ((g, (ps, body, clos)) :: ft) en (out st0) e = (rS, oS) -> comparable rS = true ->
+  exists st1, evalM n (defunM st0 g ps body clos) en e = (rS, st1) /\ out st1 = oS.
 Proof. exact late_binding. Qed.
 Print Assumptions C08_redefinition_seen_by_cached_code.
 
@@ -73,10 +76,10 @@ Print Assumptions C08_redefinition_seen_by_cached_code.
    compile a form while g is unknown (its calls of g become placeholder calls), then define g, then
    evaluate the compiled form: S's outcome with g's definition - in particular g's
    parameters are bound to the values of the call's arguments. *)
-Theorem C08_forward_reference_passes_arguments : forall n st ft en e g ps body rS oS,
+Theorem C08_forward_reference_passes_arguments : forall n st ft en e g ps body clos rS oS,
   Inv st -> Rel st ft -> slookup g (funcs st) = None ->
-  evalS n ((g, (ps, body)) :: ft) en (out st) e = (rS, oS) -> comparable rS = true ->
-  exists st2, evalM n (defunM (compile_slot st e) g ps body) en e = (rS, st2) /\ out st2 = oS.
+  evalS n ((g, (ps, body, clos)) :: ft) en (out st) e = (rS, oS) -> comparable rS = true ->
+  exists st2, evalM n (defunM (compile_slot st e) g ps body clos) en e = (rS, st2) /\ out st2 = oS.
 Proof. exact forward_reference. Qed.
 Print Assumptions C08_forward_reference_passes_arguments.
 
@@ -157,13 +160,13 @@ Print Assumptions C08_oracle_empty_is_spec.
 Theorem C08_lookup_time_witness :
   let a1 := SList 2 [SSym "emit"; SInt 5%Z] in
   let a2 := SList 2 [SSym "+"; SInt 1%Z; SList 3 [SSym "list"; SInt 2%Z]] in
-  runM 50 minit (undef_ops a1) = [(Err EUndefined, [VInt 5%Z])] /\
-  runL 50 sinit (undef_ops a1) (pols_run 50 minit (undef_ops a1)) = [(Err EUndefined, [VInt 5%Z])] /\
+  runM 50 minit (undef_ops a1) = [(Val VNil, []); (Err EUndefined, [VInt 5%Z])] /\
+  runL 50 sinit (undef_ops a1) (pols_run 50 minit (undef_ops a1)) = [(Val VNil, []); (Err EUndefined, [VInt 5%Z])] /\
   runM 50 minit (undef_ops_list a1) = [(Err EUndefined, [])] /\
   runL 50 sinit (undef_ops_list a1) (pols_run 50 minit (undef_ops_list a1)) = [(Err EUndefined, [])] /\
-  runM 50 minit (undef_ops a2) = [(Err EType, [])] /\
-  runL 50 sinit (undef_ops a2) (pols_run 50 minit (undef_ops a2)) = [(Err EType, [])] /\
-  runS 50 sinit (undef_ops a1) = [(Err EUndefined, [])] /\ runS 50 sinit (undef_ops a2) = [(Err EUndefined, [])].
+  runM 50 minit (undef_ops a2) = [(Val VNil, []); (Err EType, [])] /\
+  runL 50 sinit (undef_ops a2) (pols_run 50 minit (undef_ops a2)) = [(Val VNil, []); (Err EType, [])] /\
+  runS 50 sinit (undef_ops a1) = [(Val VNil, []); (Err EUndefined, [])] /\ runS 50 sinit (undef_ops a2) = [(Val VNil, []); (Err EUndefined, [])].
 Proof. exact lookup_time_witness. Qed.
 Print Assumptions C08_lookup_time_witness.
 
@@ -178,6 +181,33 @@ Theorem C08_bare_body_symbol_repaired :
 Proof. exact bare_symbol_repaired. Qed.
 Print Assumptions C08_bare_body_symbol_repaired.
 
+(* (10b) Definitions made at compile time.  Code.Compile evaluates the top-level defun/defvar/defparameter forms in
+   ONE pass in source order, so the init form of a variable sees the function definitions made so far, exactly as
+   when the list forms are evaluated one after the other (C08_history_refines covers every such history; this is
+   the kernel-checked witness): (defun s (n) (+ n 2)) (defparameter b (s 5)) (defun s (n) (+ n 3)) (list b (s 5))
+   is (7 8) from the list form and compiled; (defvar v (later (emit 1))) (defun later ..) (list v) is
+   undefined-function either way (compiled: the condition leaves Code.Compile, and again when the object is run).
+   A definition replaces the closure too: after (let ((step 10)) (defun bump (n) (+ n step))) a top-level
+   (defvar step 1) (defun bump (n) (+ n step)) makes (bump 1) 2, also for a caller compiled before. *)
+Theorem C08_init_form_timing :
+  let v78 := Val (VList [VInt 7%Z; VInt 8%Z]) in
+  runM 50 minit [OLoad 0 init_forms; ORun 0] = [(v78, [])] /\
+  runS 50 sinit [OLoad 0 init_forms; ORun 0] = [(v78, [])] /\
+  runM 50 minit [OLoad 0 init_forms; OCompile 0; ORun 0] = [(Val VNil, []); (v78, [])] /\
+  runS 50 sinit [OLoad 0 init_forms; OCompile 0; ORun 0] = [(Val VNil, []); (v78, [])] /\
+  runM 50 minit [OLoad 0 init_forms2; ORun 0] = [(Err EUndefined, [])] /\
+  runS 50 sinit [OLoad 0 init_forms2; ORun 0] = [(Err EUndefined, [])] /\
+  runM 50 minit [OLoad 0 init_forms2; OCompile 0; ORun 0] = [(Err EUndefined, []); (Err EUndefined, [])] /\
+  runS 50 sinit [OLoad 0 init_forms2; OCompile 0; ORun 0] = [(Err EUndefined, []); (Err EUndefined, [])].
+Proof. exact init_form_timing. Qed.
+Print Assumptions C08_init_form_timing.
+Theorem C08_closure_replaced :
+  runM 50 minit closure_ops = runS 50 sinit closure_ops /\
+  runS 50 sinit closure_ops =
+    [(Val (VInt 21%Z), []); (Val VNil, []); (Val (VList [VInt 2%Z; VInt 3%Z]), []); (Val (VInt 21%Z), [])].
+Proof. exact closure_replaced. Qed.
+Print Assumptions C08_closure_replaced.
+
 (* (11) The property for whole programs.  A program = a block of function definitions es (distinct names, `defs_are
    es ds`) followed by main forms (at least one; none of them a definition); `prog cid es mains cmp k` = read it
    into a code object, Code.Compile it or not (cmp), evaluate it k times.  `meaning n ds mains ft gv` = the main forms
@@ -185,7 +215,8 @@ Print Assumptions C08_bare_body_symbol_repaired.
    S: every evaluation of the code object - compiled or not, first or k-th - has that meaning, and the meaning
    does not depend on the order of the definitions. *)
 Theorem C08_program_meaning_spec : forall n es mains ds, defs_are es ds -> Forall plain mains -> mains <> [] ->
-  forall s cid cmp k, runS n s (prog cid es mains cmp k) = repeat (meaning n ds mains (sft s) (sgv s)) k.
+  forall s cid cmp k, runS n s (prog cid es mains cmp k) =
+    (if cmp then [(Val VNil, [])] else []) ++ repeat (meaning n ds mains (sft s) (sgv s)) k.
 Proof. exact program_meaning_S. Qed.
 Print Assumptions C08_program_meaning_spec.
 Theorem C08_program_order_spec : forall n ds ds' mains ft gv, Permutation ds ds' -> NoDup (map fst ds) ->
@@ -195,6 +226,7 @@ Print Assumptions C08_program_order_spec.
 (* M: in ANY state related to S's (whatever has been defined, called, compiled or redefined before), the program
    with its definitions in one order, compiled or not, evaluated k times, and the program with its definitions in
    any other order, compiled or not, evaluated k' times, give at EVERY evaluation the same outcome, S's meaning
+   (`expected`: nil for Code.Compile itself when the program is compiled, then k times `meaning`)
    (where that is a value or a condition other than undefined-function; those outcomes are covered by (9b)).
    This is "a program means the same whether a function is defined before or after the functions that call it,
    whether its code was pre-compiled or is evaluated from the list form, and whether it is evaluated for the first
@@ -203,8 +235,8 @@ Theorem C08_program_meaning_invariant : forall n m s es es' ds ds' mains cid cid
   HInv m s -> defs_are es ds -> defs_are es' ds' -> Permutation ds ds' -> NoDup (map fst ds) ->
   Forall plain mains -> mains <> [] ->
   comparable (fst (meaning n ds mains (sft s) (sgv s))) = true ->
-  runM n m (prog cid es mains cmp k) = repeat (meaning n ds mains (sft s) (sgv s)) k /\
-  runM n m (prog cid' es' mains cmp' k') = repeat (meaning n ds mains (sft s) (sgv s)) k'.
+  runM n m (prog cid es mains cmp k) = expected n ds mains s cmp k /\
+  runM n m (prog cid' es' mains cmp' k') = expected n ds mains s cmp' k'.
 Proof. exact program_meaning_M. Qed.
 Print Assumptions C08_program_meaning_invariant.
 (* the hypotheses are satisfiable: caller before callee evaluated once uncompiled, callee before caller compiled and
@@ -213,8 +245,8 @@ Theorem C08_program_demo :
   defs_are [pd_caller; pd_callee] pd_ds /\ defs_are [pd_callee; pd_caller] (rev pd_ds) /\
   Permutation pd_ds (rev pd_ds) /\ NoDup (map fst pd_ds) /\ Forall plain pd_mains /\ pd_mains <> [] /\
   meaning 50 pd_ds pd_mains [] [] = (Val (VList [VInt 7%Z; VInt 2%Z]), [VInt 2%Z]) /\
-  runM 50 minit (prog 0 [pd_caller; pd_callee] pd_mains false 1) = repeat (meaning 50 pd_ds pd_mains [] []) 1 /\
-  runM 50 minit (prog 0 [pd_callee; pd_caller] pd_mains true 3) = repeat (meaning 50 pd_ds pd_mains [] []) 3.
+  runM 50 minit (prog 0 [pd_caller; pd_callee] pd_mains false 1) = expected 50 pd_ds pd_mains sinit false 1 /\
+  runM 50 minit (prog 0 [pd_callee; pd_caller] pd_mains true 3) = expected 50 pd_ds pd_mains sinit true 3.
 Proof. exact program_demo. Qed.
 Print Assumptions C08_program_demo.
 
